@@ -10,7 +10,15 @@ import sys
 def build(seed):
     from vf.gen.scenarios import ScenarioGen
     # fixed, deterministic scenario with 12-digit fractions; the same in every process (same PYTHONHASHSEED)
-    return ScenarioGen(random.Random(seed), seed, "pb", hostile=True, max_lanelets=3, max_obstacles=4).build()
+    sc, pps = ScenarioGen(random.Random(seed), seed, "pb", hostile=True, max_lanelets=4, max_obstacles=4).build()
+    # collections whose ORDER is the user's: a fork listed in descending id order (a writer that re-orders what it is given
+    # changes what the next writer sees)
+    lls = sc.lanelet_network.lanelets
+    if len(lls) >= 3:
+        others = sorted((la.lanelet_id for la in lls[1:]), reverse=True)
+        lls[0].successor = list(others)
+        lls[0].predecessor = list(others)
+    return sc, pps
 
 
 def normalise(data, fmt):
